@@ -346,8 +346,9 @@ inductive ReachGH (own : String) : State → Bool → Prop where
     `sleeping`  — the last cycle returned delays and its patch was empty OR CHANGED NOTHING (the returned
                   version is the version of the body the cycle worked on; repair 7224f57): the worker
                   sleeps in `application.apply` and will touch the object (label `touch` → one more event).
-                  After a patch that changed the object — or whose outcome is unknown (HTTP 422/404: no
-                  version came back) — the sleep is skipped ("the patch's event will wake us").
+                  After a patch that changed the object — or whose outcome is unknown (HTTP 422: no
+                  version came back but a remaining patch did) — the sleep is skipped ("the patch's event will wake
+                  us"); a patch that sent no request at all counts as unchanged (repair b7bf39c).
     `cyc…`      — what `apply` knows about the cycle in flight.
   `decide e v` takes the HEAD of the queue as its body `v`; it may find the state inconsistent
   (`e.consistent = false`, the early `return`) only while a further event is still queued: the worker waits
@@ -374,11 +375,21 @@ inductive LLabel where
 sleep (then touch) iff there are delays and not `changed`. -/
 def sleepsAfter (delays changed : Bool) : Bool := delays && !changed
 
-/-- `changed` for a cycle whose JSON patch was not written (no ops, or HTTP 422): with dict content the merge
-patch's response decides; without it a non-empty patch has fns only and no version came back — also when
-no request was sent at all because the fns had nothing to change (open finding F8). -/
-def changedUnwritten (cycMerge cycChanges cycUserFns : Bool) (fns : List Fn) : Bool :=
-  if cycMerge then cycChanges else (!fns.isEmpty || cycUserFns)
+/-- What `application.apply` reads (the vocabulary of the translator for its `changed`). -/
+structure ApplyAtoms where
+  patchNonEmpty : Bool     -- `bool(patch)`
+  noVersion : Bool         -- `resource_version is None`
+  remaining : Bool         -- `remaining_patch is not None`
+  versionDiffers : Bool    -- `resource_version != seen_version`
+  deriving DecidableEq, Repr
+
+/-- `changed` for a cycle whose JSON patch was not written (no ops, or HTTP 422 = `rejected`). With dict content
+the merge patch's response carries a version, which decides. Without it no version came back: a rejected JSON
+patch leaves a remaining patch — the outcome is unknown, a newer change exists, its event is coming: `changed`;
+a patch that sent NO request at all (its fns had nothing to change) leaves none: not `changed` (repair b7bf39c;
+before it this case too was taken for a change — finding F8). -/
+def changedUnwritten (cycMerge cycChanges rejected : Bool) : Bool :=
+  if cycMerge then cycChanges else rejected
 
 /-- A stored new version is delivered to the worker as one more event. -/
 def enqueue (s : LState) (b : State) : List Snap :=
@@ -411,8 +422,8 @@ def lstep (own : String) (s : LState) : LLabel → Option LState
           if b.rv != s.base.rv then { s with base := b, queue := enqueue s b }     -- the accepted write is an event
           else { s with base := b,
                         sleeping := sleepsAfter s.cycDelays
-                          (changedUnwritten s.cycMerge s.cycChanges s.cycUserFns
-                            (match s.base.pending with | some p => p.fns | none => [])) }
+                          (changedUnwritten s.cycMerge s.cycChanges
+                            (match s.base.pending with | some p => applyFns own p.fns p.view != p.view | none => false)) }
     | .restart =>
         (step own s.base l).map fun b =>
           { base := b, queue := [snap b], sleeping := false, cycDelays := false, cycMerge := false, cycChanges := false,
@@ -433,8 +444,9 @@ def LInit (s : LState) : Prop :=
 * no HTTP 422 is injected without a real concurrent write (Kubernetes answers 422 to the `test` op only when
   the version has moved, i.e. after a write, whose event is the wake-up; an injected one leaves a non-empty
   patch with unknown outcome — the sleep is skipped — and no event);
-* no cycle's patch holds handler-supplied fns that yield no operation (open finding F8 = C03-N1: no request
-  is sent, `apply` takes the missing version for a change and skips the sleep: `noop_fn_loses_wakeup`). -/
+* no cycle's patch holds handler-supplied fns (open finding F9 = C03-N2: one that was carried over after a 422
+  makes the next cycle leave before the handlers and the release although no other event is queued, and if it
+  has nothing to change no request and no event follow: `carried_fn_loses_wakeup`). -/
 def LGuard : LLabel → Prop
   | .base (.jsonPatch forced) => forced = false
   | .base (.decide e _) => e.userFns = false
